@@ -379,6 +379,17 @@ def shard(tier, seedv, k, n, col: Collector):
         if not res and len(col.samples) < 2 and len(acts) >= 2:
             col.sample({"history": [a["a"] + ":" + a["item"].get("which", a["item"]["k"]) for a in acts], "target": case["target"]["item"]["k"], "cfg": case["target"]["cfg"], "hashseed": case["hashseed"]})
 
+    # enumerated: every failing builder immediately before every hand-written target (fresh process each)
+    gi = 0
+    for bad in BAD:
+        for nm in LIB_ERR + LIB_OK:
+            for v in (6, 8):
+                gi += 1
+                if gi % n != k:
+                    continue
+                case = {"target": {"item": {"k": "lib", "which": nm}, "cfg": {"version": v}}, "hashseed": [0, 1, 4242][gi % 3],
+                        "actions": [{"a": "compile", "item": {"k": "bad", "which": bad}, "cfg": {"version": 8 if gi % 2 else 6}}]}
+                body(case)
     targets = []
     hyp_run(lambda t: targets.append(t), target_strategy(), 3 if tier == "quick" else 12, env.derive(seedv, "targets"))
     col.classes.pop("hypothesis-duplicate", None)
